@@ -84,9 +84,13 @@ C10_Prompt == dead \/ got = (IF FirstJunk(stream) = 0 THEN NComplete(stream, fed
 C10_Progress == \A i \in 1..Len(stream) : Size(stream[i]) >= 4
 
 \* catalogue
-Ch(n, l)  == [k |-> "chan", num |-> n, len |-> l]
-St(l)     == [k |-> "stun", num |-> 0, len |-> l]
-Junk      == [k |-> "junk", num |-> 0, len |-> 0]
+\* body: what the data of the frame looks like -- "rand", or "cookie": it starts with the STUN magic cookie, so
+\* that bytes 4..7 of a ChannelData frame are what bytes 4..7 of a STUN message are (the frame is ChannelData
+\* all the same: its first two bits say so)
+Ch(n, l)  == [k |-> "chan", num |-> n, len |-> l, body |-> "rand"]
+Ck(n, l)  == [k |-> "chan", num |-> n, len |-> l, body |-> "cookie"]
+St(l)     == [k |-> "stun", num |-> 0, len |-> l, body |-> "rand"]
+Junk      == [k |-> "junk", num |-> 0, len |-> 0, body |-> "rand"]
 Basic == {Ch(16384, 0), Ch(16384, 1), Ch(16385, 3), Ch(20480, 4), Ch(32767, 5), Ch(16384, 8), Ch(24576, 100),
           St(0), St(4), St(8), St(100)}
 Extreme == {Ch(16384, 65531), Ch(16384, 65532), Ch(20480, 65533), Ch(32767, 65535), St(65512), St(65516), St(65532)}
@@ -96,6 +100,8 @@ MCStreams ==
   \cup {<<f, g>> : f \in Extreme, g \in {Ch(16384, 1), St(4)}}
   \cup {<<Ch(16384, 0), Ch(16385, 0), Ch(16386, 0)>>, <<St(0), Ch(16384, 3), St(4)>>, <<Ch(16384, 2), Junk>>,
         <<St(8), Junk, St(0)>>, <<Ch(20480, 7), St(12), Ch(32767, 1)>>}
+  \cup {<<Ck(16384, 4)>>, <<Ck(16384, 12)>>, <<Ck(16384, 16)>>, <<Ck(16385, 17), St(4)>>, <<Ck(32767, 100), Ch(16384, 1)>>,
+        <<St(0), Ck(16384, 40), Ck(16384, 16), St(8)>>}
 MCBindStreams ==
   {<<St(l)>> : l \in {0, 4, 8, 24, 100}} \cup {<<St(l), Ch(16384, 5)>> : l \in {8, 24}}
 
